@@ -6,6 +6,7 @@ pub mod driver;
 pub mod explore;
 pub mod monitors;
 pub mod scenarios;
+pub mod selectmon;
 pub mod session;
 pub mod system;
 
